@@ -21,6 +21,23 @@ EVIDENCE = _SIDE / 'evidence'
 GUARD = 'GEOPHIRES_X_VERIF'
 
 
+class Guard:
+    """`with Guard() as g:` around a call into the code under test: an exception raised there is a finding about that code (g.err), not a
+    failure of the machinery."""
+
+    def __init__(self):
+        self.err = None
+
+    def __enter__(self):
+        return self
+
+    def __exit__(self, et, ev, tb):
+        if et is not None and issubclass(et, Exception):
+            self.err = f'{et.__name__}: {ev}'
+            return True
+        return False
+
+
 class MachineryFailure(Exception):
     """Something in the verification machinery (not the code under test) went wrong: exit 2, never a VIOLATION."""
 
